@@ -5,10 +5,19 @@ package measure
 import (
 	"context"
 	"fmt"
+	"math"
 	"sort"
 	"strings"
+	"time"
 
 	"github.com/apache/skywalking-banyandb/api/common"
+	commonv1 "github.com/apache/skywalking-banyandb/api/proto/banyandb/common/v1"
+	databasev1 "github.com/apache/skywalking-banyandb/api/proto/banyandb/database/v1"
+	modelv1 "github.com/apache/skywalking-banyandb/api/proto/banyandb/model/v1"
+	"github.com/apache/skywalking-banyandb/banyand/protector"
+	"github.com/apache/skywalking-banyandb/pkg/index"
+	"github.com/apache/skywalking-banyandb/pkg/run"
+	"github.com/apache/skywalking-banyandb/pkg/timestamp"
 	"github.com/apache/skywalking-banyandb/banyand/internal/storage"
 	"github.com/apache/skywalking-banyandb/pkg/convert"
 	pbv1 "github.com/apache/skywalking-banyandb/pkg/pb/v1"
@@ -96,4 +105,153 @@ func VerifC09Query(parts [][]VerifC09DP, sids []uint64, minTS, maxTS int64, orde
 		return "-"
 	}
 	return strings.Join(groups, "/")
+}
+
+// VerifC09Doc is one index-mode series document: entity name, value of the indexed sort tag.
+type VerifC09Doc struct {
+	Name string
+	Sort int64
+}
+
+const verifC09SortRuleID = 7
+
+// VerifC09IndexQuery opens a real TSDB under dir with one daily segment per input slice, inserts the series documents
+// into the segments' index and runs the real index-mode ordered query path measure.buildIndexQueryResult
+// (SearchWithoutSeries per segment, segResult.remove for series already seen, segResultHeap, indexSortResult.Pull).
+// withField additionally projects a non-entity tag stored in the index documents (IndexSearchOpts.Projection non-empty).
+// Output: "name:sort[:extra]" per Pull.
+func VerifC09IndexQuery(dir string, segs [][]VerifC09Doc, desc, withField bool) (string, error) {
+	opts := storage.TSDBOpts[*tsTable, option]{
+		ShardNum:        1,
+		Location:        dir,
+		TSTableCreator:  newTSTable,
+		SegmentInterval: storage.IntervalRule{Unit: storage.DAY, Num: 1},
+		TTL:             storage.IntervalRule{Unit: storage.DAY, Num: 60},
+		Option: option{
+			mergePolicy:  newMergePolicy(math.MaxInt32, math.MaxFloat64, run.Bytes(math.MaxInt64)),
+			flushTimeout: time.Hour,
+			protector:    protector.Nop{},
+		},
+	}
+	cache := storage.NewServiceCache()
+	db, err := storage.OpenTSDB(
+		common.SetPosition(context.Background(), func(p common.Position) common.Position {
+			p.Module = "measure"
+			p.Database = "verifc09"
+			return p
+		}), opts, cache, "verifc09")
+	if err != nil {
+		return "", err
+	}
+	defer db.Close()
+	extraKey := index.FieldKey{TagName: "extra"}
+	now := time.Now()
+	for k, docsIn := range segs {
+		ts := now.Add(-time.Duration(len(segs)-1-k) * 24 * time.Hour)
+		seg, segErr := db.CreateSegmentIfNotExist(ts)
+		if segErr != nil {
+			return "", segErr
+		}
+		var docs index.Documents
+		for _, d := range docsIn {
+			sr := &pbv1.Series{Subject: "vm", EntityValues: []*modelv1.TagValue{
+				{Value: &modelv1.TagValue_Str{Str: &modelv1.Str{Value: d.Name}}},
+			}}
+			if mErr := sr.Marshal(); mErr != nil {
+				seg.DecRef()
+				return "", mErr
+			}
+			f := index.NewBytesField(index.FieldKey{IndexRuleID: verifC09SortRuleID}, convert.Int64ToBytes(d.Sort))
+			f.Index = true
+			f.Store = true
+			e := index.NewBytesField(extraKey, convert.Int64ToBytes(d.Sort*3+1))
+			e.Store = true
+			docs = append(docs, index.Document{
+				DocID: uint64(sr.ID), EntityValues: sr.Buffer, Timestamp: ts.UnixNano(), Version: 1,
+				Fields: []index.Field{f, e},
+			})
+		}
+		insErr := seg.IndexDB().Insert(docs)
+		seg.DecRef()
+		if insErr != nil {
+			return "", insErr
+		}
+	}
+	m := &measure{
+		schema: &databasev1.Measure{
+			Metadata:  &commonv1.Metadata{Name: "vm", Group: "verifc09"},
+			Entity:    &databasev1.Entity{TagNames: []string{"entity-tag"}},
+			IndexMode: true,
+			TagFamilies: []*databasev1.TagFamilySpec{{
+				Name: "default",
+				Tags: []*databasev1.TagSpec{
+					{Name: "entity-tag", Type: databasev1.TagType_TAG_TYPE_STRING},
+					{Name: "extra", Type: databasev1.TagType_TAG_TYPE_INT},
+				},
+			}},
+		},
+		c:  cache,
+		pm: protector.Nop{},
+	}
+	if err = m.parseSpec(); err != nil {
+		return "", err
+	}
+	m.tsdb.Store(db)
+	srt := modelv1.Sort_SORT_ASC
+	if desc {
+		srt = modelv1.Sort_SORT_DESC
+	}
+	tr := timestamp.NewInclusiveTimeRange(now.Add(-time.Duration(len(segs))*24*time.Hour), now.Add(time.Hour))
+	names := []string{"entity-tag"}
+	if withField {
+		names = append(names, "extra")
+	}
+	mqo := model.MeasureQueryOptions{
+		Name:      "vm",
+		TimeRange: &tr,
+		Order: &index.OrderBy{
+			Type: index.OrderByTypeIndex, Sort: srt,
+			Index: &databasev1.IndexRule{Metadata: &commonv1.Metadata{Id: verifC09SortRuleID, Name: "vsort"}},
+		},
+		TagProjection: []model.TagProjection{{Family: "default", Names: names}},
+	}
+	segments, err := db.SelectSegments(tr, true)
+	if err != nil {
+		return "", err
+	}
+	res, err := m.buildIndexQueryResult(context.Background(), mqo, segments)
+	if err != nil {
+		return "", err
+	}
+	defer res.Release()
+	want := map[string]int64{}
+	for _, docsIn := range segs {
+		for _, d := range docsIn {
+			want[d.Name] = d.Sort
+		}
+	}
+	var out []string
+	for {
+		r := res.Pull()
+		if r == nil {
+			break
+		}
+		if r.Error != nil {
+			return "", r.Error
+		}
+		n := r.TagFamilies[0].Tags[0].Values[0].GetStr().GetValue()
+		e := fmt.Sprintf("%s:%d", n, want[n])
+		if withField {
+			if len(r.TagFamilies[0].Tags) < 2 {
+				e += ":?"
+			} else {
+				e += fmt.Sprintf(":%d", r.TagFamilies[0].Tags[1].Values[0].GetInt().GetValue())
+			}
+		}
+		out = append(out, e)
+	}
+	if len(out) == 0 {
+		return "-", nil
+	}
+	return strings.Join(out, ","), nil
 }
